@@ -6,7 +6,7 @@ compile and pass the 1229 tests (plus the example's 2 for scope.rs), and runs th
 file against the copy. Prints one line per mutant: killed-by-suite / caught-by <ID> / SURVIVED (for manual triage:
 equivalent mutant or a gap).
 
-  mutation_sweep.py [--max N] [--seed S] [--files f1,f2,...]
+  mutation_sweep.py [--max N] [--seed S] [--files f1,f2,...] [--delete]     (--delete: statement deletion instead of token mutation)
 
 Scratch copy and build output live under $SWEEP_DIR (default /tmp/verif-sweep) and are removed at the end.
 """
@@ -31,6 +31,8 @@ FILES = {
     "src/card/suit_range.rs": ["C13"],
     "examples/multi-thread/scope.rs": ["C16"],
 }
+
+DELETE_ONLY = False
 
 OPERATORS = [
     (r"(?<![<>=!-])<=(?!=)", "<"), (r"(?<![<>=!&-])<(?![<=])", "<="),
@@ -100,6 +102,12 @@ def candidates(seed, files):
                 continue
             if f.endswith("made_hand.rs") and ("=> 0b" in line):
                 continue
+            if DELETE_ONLY:
+                # statement deletion: a plain assignment, compound assignment, method-call statement, break or continue
+                if re.match(r"^\s+(break|continue);\s*$", line) or re.match(r"^\s+[A-Za-z_][\w\.\[\]\(\)&\* ]*(\s[-+*|&]?=\s.*|\.\w+\(.*\));\s*$", line):
+                    if not re.match(r"^\s+(let|return|use|pub|fn|impl|mod|struct|enum|const|static)\b", line):
+                        out.append((f, n, line, re.match(r"^\s*", line).group(0) + "// (statement deleted)", "delete statement"))
+                continue
             for pat, rep in OPERATORS:
                 for m in re.finditer(pat, line):
                     # skip generics / arrows / lifetimes for < and >
@@ -122,6 +130,9 @@ def main():
             seed = int(args.pop(0))
         elif a == "--files":
             files = args.pop(0).split(",")
+        elif a == "--delete":
+            global DELETE_ONLY
+            DELETE_ONLY = True
     shutil.rmtree(BASE, ignore_errors=True)
     os.makedirs(BASE)
     sh(f"rsync -a --exclude target --exclude .git {SRC}/ {BASE}/repo/")
